@@ -35,7 +35,7 @@ var c03Families = []*family{
 	{name: "rand", ctors: []string{"NewFile"}, paths: []string{"math/rand", "crypto/rand", "x/rand", "y/rand1", "text/template", "html/template"},
 		names:   map[string]string{"x/rand": "rand", "y/rand1": "rand1"},
 		aliases: []string{"rand", "rand1", "template"}, prefixes: []string{"p"}, maxRefs: 4, freeRefs: 3, wrappers: []int{0}, anon: true, lateNames: true},
-	{name: "reserved", ctors: []string{"NewFile"}, paths: []string{"x/go", "y/go", "x/int", "x/any", "x/1f", "x/9", "x/é-b", "z/pkg", "x/err", "x/api/2.0", "x/-7zip", "x/3-2-1go"},
+	{name: "reserved", ctors: []string{"NewFile"}, paths: []string{"x/go", "y/go", "x/int", "x/any", "x/1f", "x/9", "x/é-b", "z/pkg", "x/err", "x/api/2.0", "x/-7zip", "x/3-2-1go", "x/fallthrough", "x/x²", "x/interface"},
 		names:   map[string]string{"x/int": "int", "x/any": "any", "z/pkg": "pkg", "x/err": "err", "x/1f": "f"},
 		aliases: []string{"go", "pkg", "int", "pkg1"}, prefixes: []string{"pkg"}, maxRefs: 3, freeRefs: 2, wrappers: []int{0}, anon: false, doubles: true},
 	// aliases that merely repeat the last path element of a package that is called something else
@@ -109,6 +109,7 @@ func runC03(r *ev.Recorder) {
 	sys := c03RawSystem()
 	var canonMu sync.Mutex
 	res := statespace.Search(statespace.System{
+		Tick:   r.Tick,
 		NumOps: len(sys.ops), MaxDepth: depth, Stop: r.Expired,
 		Step: func(hist []int) (string, bool) {
 			w := sys.build(hist)
